@@ -368,6 +368,9 @@ package stun
 //@   props C07
 //@   requires u != nil && m != nil
 //@   assigns *u
+//@   props C06
+//@   ensures result == nil <==> Has(m, 0x0006)
+//@   ensures result == nil ==> sameslice(*u, AttrVal(m, 0x0006))
 //@ func (*Realm).GetFrom(n, m)
 //@   safety C07
 //@   props C07
@@ -1203,6 +1206,8 @@ package stun
 //@   props C03
 //@   ensures Wire(m)
 //@   ensures forall(k, 0, len(m.Attributes), forall(j, 0, len(m.Attributes[k].Value), m.Raw[vpos(WLens(m), k) + 4 + j] == old(m.Attributes[k].Value[j])), vpos(WLens(m), k))
+//@   use vpos_mod4(old(ValueLens(m)), old(len(m.Attributes)), old(len(m.Attributes)))
+//@   ensures Built(m)
 
 // ---- C03, composition lemmas (proof-only functions of verif_lemmas.go) ----
 
@@ -1232,6 +1237,31 @@ package stun
 //@   ensures len(m.Attributes) == old(len(m.Attributes))
 //@   ensures forall(k, 0, len(m.Attributes), m.Attributes[k].Type == compat(old(m.Attributes[k].Type)) && m.Attributes[k].Length == old(m.Attributes[k].Length) && len(m.Attributes[k].Value) == old(len(m.Attributes[k].Value)))
 //@   ensures forall(k, 0, len(m.Attributes), forall(j, 0, len(m.Attributes[k].Value), m.Attributes[k].Value[j] == old(m.Attributes[k].Value[j])))
+
+//@ func verifLemmaEncodeThenDecode(m)
+//@   safety C03
+//@   props C03
+//@   requires EncodeOK(m) && TypeOK(m) && region(m.Attributes) != 0
+//@   assigns *m, mem(m.Raw), mem(m.Attributes)
+//@   allocates
+//@   ensures result == nil
+//@   ensures m.Type.Method == old(m.Type.Method) && m.Type.Class == old(m.Type.Class)
+//@   ensures forall(j, 0, 12, m.TransactionID[j] == old(m.TransactionID[j]))
+//@   ensures len(m.Attributes) == old(len(m.Attributes))
+//@   ensures forall(k, 0, len(m.Attributes), m.Attributes[k].Type == compat(old(m.Attributes[k].Type)) && len(m.Attributes[k].Value) == old(len(m.Attributes[k].Value)))
+//@   ensures forall(k, 0, len(m.Attributes), forall(j, 0, len(m.Attributes[k].Value), m.Attributes[k].Value[j] == old(m.Attributes[k].Value[j])))
+
+//@ func verifLemmaUsernameRoundTrip(m, u)
+//@   safety C06
+//@   props C06
+//@   requires Built(m) && Wire(m) && CanAdd(m, u) && !Has(m, 0x0006) && region(u) != region(m.Raw)
+//@   assigns *m, mem(m.Raw), mem(m.Attributes)
+//@   allocates
+//@   -- the first USERNAME of the re-decoded message is the attribute just added, and it carries the bytes of u
+//@   assert len(u) <= 513 ==> len(m.Attributes) == old(len(m.Attributes)) + 1 && First(m.Attributes, 0x0006) == old(len(m.Attributes))
+//@   assert len(u) <= 513 ==> len(m.Attributes[old(len(m.Attributes))].Value) == len(u) && forall(j, 0, len(u), m.Attributes[old(len(m.Attributes))].Value[j] == old(u[j]))
+//@   ensures len(u) <= 513 ==> result1 == nil && len(result0) == len(u) && forall(j, 0, len(u), result0[j] == old(u[j]))
+//@   ensures len(u) > 513 ==> result1 != nil
 
 //@ func Build(setters)
 //@   safety C03 C09
